@@ -369,14 +369,34 @@ func (c *Ctx) buildWiring() {
 			// which other modules happen to be loaded already, on a flag, ...) is
 			// not something the flows can rely on
 			if _, isDefer := call.(*ssa.Defer); !isDefer {
-				q := PathQuery{StartBlock: fn.Blocks[0], Cut: func(i ssa.Instruction) bool { return i == call.(ssa.Instruction) }, Goal: func(i ssa.Instruction) bool {
-					ret, ok := i.(*ssa.Return)
-					return ok && !c.isErrorExit(ret)
-				}}
+				q := PathQuery{StartBlock: fn.Blocks[0], Cut: func(i ssa.Instruction) bool { return i == call.(ssa.Instruction) }, GoalP: c.nonErrorReturn}
 				w.Conditional = q.Find() != nil
 			}
 			if v, ok := ConstInt(Arg(call, 1)); ok {
 				w.Event, w.Const = v, true
+			} else if tbl, evRows := RowValues(Arg(call, 1)); len(evRows) > 0 {
+				// registrations made by a loop over a literal table of events, or of
+				// (event, handler) rows
+				hTbl, hRows := RowValues(Arg(call, 2))
+				okAll := true
+				var ws []Wire
+				for i, ev := range evRows {
+					k, isC := ConstInt(ev)
+					if !isC {
+						okAll = false
+						break
+					}
+					x := w
+					x.Event, x.Const = k, true
+					if hTbl == tbl && len(hRows) == len(evRows) {
+						x.Handler, x.Name = c.resolveFuncValue(hRows[i])
+					}
+					ws = append(ws, x)
+				}
+				if okAll {
+					c.wiring = append(c.wiring, ws...)
+					continue
+				}
 			} else if cs := constSet(Arg(call, 1)); len(cs) > 0 {
 				for _, k := range cs {
 					if v, ok := ConstInt(k); ok {
